@@ -228,6 +228,7 @@ class PeerConn:
         if w.plan.get('keep_tx_msgs'):
             rec['hex'] = bytes(data).hex()
         self.log['tx'].append(rec)
+        honest = bytes(data)
         delay = 0
         pre = b''
         after = None
@@ -263,8 +264,9 @@ class PeerConn:
             else:
                 raise RuntimeError('unknown fault kind %r' % kind)
         rec['sent'] = len(pre) + len(data)
-        rec['intact'] = not [x for x in rec['faults'] if x != 'delay']
         out = pre + data
+        # intact: the peer put exactly the honest message on the wire (a delay, or a close / reset placed after the whole message, leave it so)
+        rec['intact'] = bytes(out) == honest
         if w.plan.get('keep_tx') and len(self.delivered) < 262144:
             self.delivered += out
         if out:
@@ -607,6 +609,12 @@ class SimSSHServer:
                 pc.log['delivered_hex'] = bytes(pc.delivered).hex()
             pc.log['rx_left'] = len(pc.buf)
             pc.log['tool_closed'] = bool(pc.end.rx.fin or pc.end.rx.rst)
+        # a group (host key) counts as handed out when its message went out whole, also when a fault ended the script right after it
+        by_conn = {pc.ordinal: pc.log for pc in self.conns}
+        for rq in out.get('gex_requests', []):
+            tx = [t for t in by_conn.get(rq['conn'], {}).get('tx', []) if t['tag'] == 'group']
+            if tx and tx[-1]['intact'] and rq.get('answer') is not None:
+                rq['delivered'] = True
         return out
 
 
